@@ -112,6 +112,7 @@ def check_corruptions(kind, header, blocks, parse, err):
                 corrupt.append((i, None, 'missing match'))                         # delete the line
                 corrupt.append((i, 'match: contains(', 'invalid match expression'))
                 corrupt.append((i, 'match: import os', 'invalid match expression'))
+                corrupt.append((i, 'match: ' + ' + '.join(['amount'] * 3000), 'invalid match expression'))      # too deep for the parser: an error of the FILE, not a crash
             if l.startswith('category:'):
                 corrupt.append((i, 'categry: X', 'unknown property'))
             if l.startswith('let:'):
